@@ -110,6 +110,9 @@ pub enum Step {
         /// make the payload serializer fail (exercises `PubError::Payload`)
         #[serde(default)]
         payload_fails: bool,
+        /// builder order: `correlate()` before `properties()` instead of after
+        #[serde(default)]
+        corr_first: bool,
     },
     Subscribe {
         filters: Vec<Filter>,
@@ -155,6 +158,11 @@ pub enum Step {
         bytes: Bytes,
     },
     Cancel {},
+    /// between connections: move the packet identifier counter (verification hook); stands for the
+    /// 65535 allocations that bring the 16-bit counter back to this value
+    Setid {
+        id: u16,
+    },
 }
 
 impl Step {
